@@ -7,6 +7,7 @@
 mod gen;
 mod out;
 mod c05;
+mod c08;
 
 use gen::Rng;
 use out::Out;
@@ -64,6 +65,7 @@ fn main() {
     let mut rng = Rng::new(seed);
     match prop.as_str() {
         "C05" => c05::run(&mut out, &mut rng, tier),
+        "C08" => c08::run(&mut out, &mut rng, tier),
         _ => {
             eprintln!("unknown property {}", prop);
             std::process::exit(2);
